@@ -87,7 +87,7 @@ fn seqs<C: CI + MaskableMut + ComplementMut>(ctx: &mut Ctx, mask_code: fn(u8) ->
     let pw = per_word(a.bits);
     let noff = n_offsets(a.bits);
     ctx.group(&format!("{name}/sequences"), |ctx| {
-        let lens: Vec<usize> = if ctx.lite { vec![0, 1, pw + 1 + ctx.shard % 2] } else { (0..=3 * pw + 2).collect() };
+        let lens: Vec<usize> = if ctx.lite { vec![0, 1, pw + 1 + ctx.shard % 2] } else { (0..=3 * pw + 2).chain(long_lengths(a.bits)).collect() };
         for n in lens {
             for rep in 0..ctx.n(3, 30, 1) {
                 if ctx.over() {
@@ -163,7 +163,7 @@ fn main() {
             }
             cell!(ctx, "mdna/sequence-involution");
         });
-        ctx.note("rule", json!("symbols (exhaustive): all 32 masked-IUPAC symbols — mask/unmask/to_mask/to_unmask against the documented case table (upper<->lower, '-'<->'.'), idempotence, unmask∘mask = unmask, nucleotide set unchanged, commutation with comp; all 14 masked-DNA symbols — documented toggle for A,C,G,T,N, gap and pad fixed, involution and commutation with comp for all (the placeholder symbols ?/! are only held to involution / no panic). Sequences: every length 0..=3 words+2 for both codecs (5-bit symbols straddle words at positions 12, 25, 38, 51 mod 64 — all inside the range), built by parse and by to_owned() of an offset slice: position-wise equal to the model, length kept, receiver untouched, in-place == copying, raw image, mask∘revcomp == revcomp∘mask, mask∘rev == rev∘mask. Distinct = (codec, provenance, content)."));
+        ctx.note("rule", json!("symbols (exhaustive): all 32 masked-IUPAC symbols — mask/unmask/to_mask/to_unmask against the documented case table (upper<->lower, '-'<->'.'), idempotence, unmask∘mask = unmask, nucleotide set unchanged, commutation with comp; all 14 masked-DNA symbols — documented toggle for A,C,G,T,N, gap and pad fixed, involution and commutation with comp for all (the placeholder symbols ?/! are only held to involution / no panic). Sequences: every length 0..=3 words+2 and long ones of 4..33 words for both codecs (both codecs in one process and one thread, so per-thread / process-wide caches are shared) (5-bit symbols straddle words at positions 12, 25, 38, 51 mod 64 — all inside the range), built by parse and by to_owned() of an offset slice: position-wise equal to the model, length kept, receiver untouched, in-place == copying, raw image, mask∘revcomp == revcomp∘mask, mask∘rev == rev∘mask. Distinct = (codec, provenance, content)."));
         ctx.note("assumptions", json!(["for the 4-bit codec the placeholder symbols ?/! are only held to involution, length preservation and absence of panics; position-wise case checks use contents without them"]));
     });
 }
